@@ -104,6 +104,8 @@ class Gen:
         if r.chance(4):
             root = r.choice(["[x]", "['a']", '["user"]', "[t]"])
         if root == "forloop":
+            if self.loop_depth > 1 and r.chance(35):
+                return "forloop.parentloop." + r.choice(["index", "length", "first", "parentloop.index"])
             return "forloop." + r.choice(["index", "index0", "first", "last", "length", "rindex", "rindex0"])
         segs = []
         for _ in range(r.choice([0, 0, 0, 1, 1, 2])):
